@@ -109,20 +109,31 @@
   (setv x0 (when x (get x 0)))
   (setv x1 (when (> (len x) 1) (get x 1)))
 
+  ; Dotted-identifier syntax, if `x` can be written that way.
+  (setv dotted (when
+    (and
+      (>= (len x) 3)
+      (all (gfor  e x  (is (type e) hy.models.Symbol)))
+      (or (= x0 '.) (and
+        (= x1 'None)
+        (not (.strip (str x0) ".")))))
+    (+
+      (if (= x1 'None) (str x0) "")
+      (.join "." (map hy-repr (cut
+        x
+        (if (= x1 'None) 2 1)
+        None))))))
+
   (cond
 
-    (and
-        (>= (len x) 3)
-        (all (gfor  e x  (is (type e) hy.models.Symbol)))
-        (or (= x0 '.) (and
-          (= x1 'None)
-          (not (.strip (str x0) ".")))))
-      (+
-        (if (= x1 'None) (str x0) "")
-        (.join "." (map hy-repr (cut
-          x
-          (if (= x1 'None) 2 1)
-          None))))
+    ; Use it only if it reads back as `x` (`(. . .)` would print as
+    ; `...`, and `(. None _1)` as the number `._1`).
+    (and dotted (do
+        (import hy.reader.hy-reader [as-identifier])
+        (try
+          (= (as-identifier dotted) x)
+          (except [ValueError] False))))
+      dotted
 
     (and (= (len x) 2) (in x0 syntax))
       (do
